@@ -22,6 +22,9 @@ FIXED = [
  ("F17", "C04", "5762005", "the first repair of F11 (free the preallocation) was not crash safe: the dropped reference could reach the disk before the new mapping; the preallocation is now reused (follow-up b237dee zeroes it durably before it is mapped: C05)", "regress/C04/zero-prealloc-free-before-mapping.json"),
  ("F18", "C07", "e0f5d8a", "copy-on-write/discard settled a new L2 cluster with one of its slices write-locked while cache flush takes the cluster lock before slice locks: deadlock (follow-up f10853f: do not hold the new-cluster map lock while waiting for a cluster lock)", "regress/C07/settle-vs-flush-deadlock.json"),
  ("F19", "C05", "46c579b", "copy-on-write wrote the whole L2 slice in place while it already mapped sibling clusters of the same multi-cluster write that were allocated but not zeroed yet: a crash exposed the stale content of a reused host cluster in place of synced data", "regress/C05/cow-slice-flush-exposes-unzeroed-sibling.json"),
+ ("F20", "C17", "af1f98a", "a failed slice load left the pending cache entry marked as loaded (and, follow-up 9cc216e, committed into the cache by the next load): every later access of that slice failed with 'Fail to load l2 table' or used an empty slice", "regress/C17/failed-slice-load-poisons-cache.json"),
+ ("F21", "C17", "a326967", "dirty flags of slices and top-table blocks were cleared/popped before their write succeeded and failed zeroing of new clusters was ignored: after a backend error flush_meta retried successfully while metadata was still missing on disk", "regress/C17/dirty-cleared-before-write.json"),
+ ("F22", "C17", "bca42b9", "dirty slices evicted from the cache were lost when their write-back failed", "regress/C17/eviction-writeback-failure-loses-slice.json"),
  ("F11", "C03", "c069255", "writing to a zero-flagged cluster with a preallocation leaked the preallocated host cluster", "regress/C03/zero-prealloc-write-leaks.json"),
 ]
 KNOWN = [
@@ -46,6 +49,13 @@ KNOWN = [
            "deadlock on slice locks (history contains an eviction during a concurrent batch)",
       rules=["ApiErr", "DiscardErr", "Deadlock", "Budget"], tags=["hist:eviction_during_concurrency"],
       reproducer="findings/C07-eviction-race.json", domain="conc"),
+ dict(id="C17-failed-zeroing-of-new-cluster-keeps-mapping", property="C17",
+      what="when both the hole punch and its zero-write fallback fail while a freshly allocated data cluster is zeroed, "
+           "write_at returns Err but the new mapping stays (and is flushed later), so the guest cluster reads the stale "
+           "content of the host cluster's previous use instead of its old or new value (fault plan fails a punch request and "
+           "the fallback write that follows it)",
+      rules=["ReadData", "Reopen", "Frame"], tags=["punch_and_fallback_failed"],
+      reproducer="findings/C17-unzeroed-new-cluster.json", domain="plans"),
  dict(id="C18-slice-eviction-under-concurrency", property="C18",
       what="same root cause as C06-slice-eviction-under-concurrency: an update made through a slice evicted while several "
            "tasks run is lost from the cache, so after flush_meta the flag is false although file and memory disagree "
